@@ -294,6 +294,14 @@ def m_vec_new(eng, callee, args):
     return RVec([])
 
 
+@model(r"^Vec::<.*>::extend_from_slice$", "Vec::extend_from_slice appends clones of the slice's items")
+def m_vec_extend_from_slice(eng, callee, args):
+    src = deref(args[1])
+    items = src.items if isinstance(src, RVec) else src
+    deref(args[0]).items.extend(clone_val(x) for x in items)
+    return Tuple([])
+
+
 @model(r"^Vec::<.*>::push$", "Vec::push appends")
 def m_vec_push(eng, callee, args):
     deref(args[0]).items.append(args[1])
